@@ -10,9 +10,9 @@ import Infretis.Lemmas.PermReach
 loop over the blocks of `find_blocks` (single / `quick_prob` / `permanent_prob`; blocks sent to
 `random_prob` excluded) assembles exactly `specMat` of the sorted matrix.
 
-Helper lemmas live in `Infretis.Perm.Blocks`.
+Helper lemmas live in `Infretis.Perm.Blk`.
 -/
-namespace Infretis.Perm.Blocks
+namespace Infretis.Perm.Blk
 
 set_option linter.unusedSectionVars false
 
@@ -277,7 +277,7 @@ theorem SR.diag (i : Nat) (hi : i < S.length) : 0 < entry S i i := by
     exact h.pos0 (by omega)
 
 theorem SR.permC_pos : 0 < permC S :=
-  Blocks.permC_pos S (nonnegRows_of_entry S h.nonneg) h.diag
+  Blk.permC_pos S (nonnegRows_of_entry S h.nonneg) h.diag
 
 end sr
 
@@ -500,7 +500,7 @@ theorem IsBlk.diag (i : Nat) (hi : i < k) : 0 < entry sub i i :=
   h.hpos i i hi hi (h.hg i hi)
 
 theorem IsBlk.permC_pos : 0 < permC sub :=
-  Blocks.permC_pos sub h.nonneg (fun i hi => h.diag i (by rw [← h.hk]; exact hi))
+  Blk.permC_pos sub h.nonneg (fun i hi => h.diag i (by rw [← h.hk]; exact hi))
 
 end blk
 
@@ -923,11 +923,11 @@ theorem loop_good {o : Nat} {S : Mat} {E : Nat → Nat} (h : SR o S E) :
             have := h.E0 (by omega)
             omega
 
-end Infretis.Perm.Blocks
+end Infretis.Perm.Blk
 
 namespace Infretis.Perm
 
-open Blocks in
+open Blk in
 /-- **The block branch of `inf_retis`**: on the sorted reachable family with non-equal weights
     the loop over the blocks of `find_blocks` (none of them sent to `random_prob`) writes exactly
     the permanent ratios of the sorted matrix. -/
@@ -950,4 +950,68 @@ theorem sortedOut_blocks (s : Sorted) (cnts : List Nat)
   simp only [Bool.false_eq_true, if_false, hm, hloop]
   simp [goodAcc, specMat]
 
+/-! ### non-vacuity (tests) -/
+
+/-- minus block `(0,1,-1)`, then a 2×2 `permanent_prob` block and a single block -/
+example :
+    let S : Mat := [[1, 0, 0, 0], [0, 2, 3, 0], [0, 1, 4, 0], [0, 5, 6, 7]]
+    let r := sortedOut { offset := 1, m := 4, sortIdx := [0, 1, 2, 3], sorted := S, equal := false }
+    r.rows = specMat S ∧ r.mc = [] ∧ r.nan = false ∧ r.err = none := by decide +kernel
+
+/-- a row-constant 2×2 `quick_prob` block followed by a single block, no minus row -/
+example :
+    let S : Mat := [[2, 2, 0], [3, 3, 0], [1, 4, 5]]
+    let r := sortedOut { offset := 0, m := 3, sortIdx := [0, 1, 2], sorted := S, equal := false }
+    r.rows = specMat S ∧ r.mc = [] ∧ r.nan = false ∧ r.err = none := by decide +kernel
+
 end Infretis.Perm
+
+/-! ### the hypotheses of `sortedOut_blocks` are satisfiable -/
+namespace Infretis.Perm.Blk
+
+/-- decidable form of `IsPlusRow` -/
+def plusDec (o m cnt : Nat) (r : Row) : Prop :=
+  r.length = m ∧ o + cnt ≤ m ∧ (∀ c, c < o → r.getD c 0 = 0) ∧
+  (∀ c, c < o + cnt → o ≤ c → 0 < r.getD c 0) ∧ (∀ c, c < m → o + cnt ≤ c → r.getD c 0 = 0)
+
+instance (o m cnt : Nat) (r : Row) : Decidable (plusDec o m cnt r) := by
+  unfold plusDec; infer_instance
+
+theorem isPlusRow_of_dec {o m cnt : Nat} {r : Row} (h : plusDec o m cnt r) : IsPlusRow o m cnt r :=
+  ⟨h.1, h.2.1, h.2.2.1, fun c h1 h2 => h.2.2.2.1 c h2 h1, fun c h1 h2 => h.2.2.2.2 c h2 h1⟩
+
+def minusDec (m : Nat) (r : Row) : Prop :=
+  r.length = m ∧ 0 < r.getD 0 0 ∧ ∀ c, c < m → 1 ≤ c → r.getD c 0 = 0
+
+instance (m : Nat) (r : Row) : Decidable (minusDec m r) := by
+  unfold minusDec; infer_instance
+
+theorem isMinusRow_of_dec {m : Nat} {r : Row} (h : minusDec m r) : IsMinusRow m r :=
+  ⟨h.1, h.2.1, fun c h1 h2 => h.2.2 c h2 h1⟩
+
+def S0 : Mat := [[1, 0, 0, 0], [0, 2, 3, 0], [0, 1, 4, 0], [0, 5, 6, 7]]
+def s0 : Sorted := { offset := 1, m := 4, sortIdx := [0, 1, 2, 3], sorted := S0, equal := false }
+
+theorem s0_reach : SortedReach 1 S0 [2, 2, 3] where
+  ho := by decide
+  hlen := by decide
+  minus := fun _ => isMinusRow_of_dec (by decide +kernel)
+  plus := by
+    have : ∀ k, k < 3 → plusDec 1 4 (([2, 2, 3] : List Nat).getD k 0) (S0.getD (1 + k) []) := by
+      decide +kernel
+    intro k hk
+    exact isPlusRow_of_dec (this k hk)
+  sorted := by decide
+  hall := by decide
+
+example : sortedOut s0 = goodAcc S0 := by
+  apply sortedOut_blocks s0 [2, 2, 3] s0_reach rfl (by decide) rfl
+  intro bs hbs
+  have hfb : findBlocks S0 1 = .list [(0, 1, -1), (1, 3, 1), (3, 4, 1)] := by rfl
+  have : bs = [(0, 1, -1), (1, 3, 1), (3, 4, 1)] := by
+    have h := hbs.symm.trans hfb
+    injection h
+  subst this
+  decide +kernel
+
+end Infretis.Perm.Blk
